@@ -2,7 +2,7 @@
    printed by the audit step of bin/check (Print Assumptions per theorem). *)
 From Coq Require Import ZArith Bool List.
 From Coq Require Floats.SpecFloat.
-From SV Require Import Common.GoInt C10.Model C10.Spec C10.ProofsInt C10.ProofsRange C10.ProofsSlice C10.ProofsFloat C10.ProofsText.
+From SV Require Import Common.GoInt C10.Model C10.Spec C10.ProofsInt C10.ProofsRange C10.ProofsSlice C10.ProofsFloat C10.ProofsText C10.SpecRound C10.ProofsRound.
 Import ListNotations.
 Import Floats.SpecFloat.
 Open Scope Z_scope.
@@ -273,14 +273,13 @@ Theorem int_to_float_paths :
     Int_Float I x = if 1024 <? bitlen (value I x) then S754_infinity (value I x <? 0) else Z_to_float (value I x).
 Proof. exact Int_Float_lemma. Qed.
 
-(* Full statement: for every int x, x.Float() is the binary64 value nearest to x
-   (ties to even) and float(x) fails iff that is an infinity.  Proved here: the
-   conversion is EXACT for every |x| < 2^53 (float(x) == x and int(float(x)) == x,
-   both representations).  Missing: the rounding direction for ints that need
-   more than 53 bits -- that part is SpecFloat's binary_normalize (the IEEE
-   definition, taken as the specification of the hardware / big.Float
-   conversion) and is checked per observed case by Cases.nearest_even, an
-   independent neighbour test with SFsucc / SFpred. *)
+(* Corollary of int_to_float_nearest_even (below; its fourth part shows that the
+   nearest-even specification forces the exact value for |x| < 2^53), kept under
+   its original name and in its original form because it also gives the
+   round-trip through int(): the conversion is EXACT for every |x| < 2^53
+   (float(x) == x and int(float(x)) == x, both representations).  The part this
+   theorem used to leave open -- the rounding direction for ints that need more
+   than 53 bits -- is now proved for all integers: int_to_float_nearest_even. *)
 Theorem int_to_float_exact_partial :
   forall I (x : T I), canonical I x = true -> Z.abs (value I x) < 2 ^ 53 ->
     valid_float (Int_Float I x) = true /\
@@ -288,6 +287,54 @@ Theorem int_to_float_exact_partial :
     spec_cmp_int_float (value I x) (Int_Float I x) = Eq /\
     finiteFloat I x = Ok (Int_Float I x).
 Proof. exact Int_Float_exact_lemma. Qed.
+
+(* Int.Float() / float(x) for EVERY integer, of any magnitude, in both
+   representations and on every path of int.go (the small arm, the uint64 and
+   int64 hardware fast paths, the > 1024-bit shortcut to +-Inf, and
+   big.Float.SetInt(x).Float64()): the result is the binary64 value nearest to x,
+   ties to even, as specified independently in SpecRound.v --
+     |x| >= 2^1024 - 2^970 (the IEEE overflow threshold): the infinity of x's sign,
+     and that is exactly when finiteFloat / float(x) fails;
+     otherwise a valid finite float whose exact value v minimises |x - v| over
+     ALL finite binary64 values {m * 2^e : |m| < 2^53, -1074 <= e <= 971}
+     (compared exactly on the 2^-1074 grid), with an even significand whenever
+     another binary64 value is equally near; 0 gives +0.
+   The model's conversion Z_to_float is SpecFloat.binary_normalize (align, shift
+   right keeping round and sticky bits, round to nearest even, renormalise on
+   carry, overflow); part 1 proves that this function meets the specification
+   for all z by arithmetic on powers of two (no reals, no axioms).  Part 3: the
+   specification determines the result uniquely (so it pins down every bit of
+   the conversion); part 4: it forces the exact value below 2^53; part 5: every
+   valid float is in the set minimised over. *)
+Theorem int_to_float_nearest_even :
+  (forall z, rounds_to_nearest_even z (Z_to_float z)) /\
+  (forall I (x : T I), canonical I x = true ->
+     rounds_to_nearest_even (value I x) (Int_Float I x) /\
+     finiteFloat I x = (if overflow_threshold <=? Z.abs (value I x) then Err else Ok (Int_Float I x))) /\
+  (forall z f g, rounds_to_nearest_even z f -> rounds_to_nearest_even z g -> f = g) /\
+  (forall z f, Z.abs z < 2 ^ 53 -> rounds_to_nearest_even z f -> scaled_val f = Some (z * scale)) /\
+  (forall f w, valid_float f = true -> scaled_val f = Some w -> b64_scaled w).
+Proof. exact int_to_float_nearest_even_lemma. Qed.
+
+(* Non-vacuity: canonical ints beyond 53 bits exist, and the conversion really
+   rounds there: 2^53+1 -> 2^53 (tie, down to even), 2^53+3 -> 2^53+4 (tie, up to
+   even), 2^54-1 -> 2^54 (carry into the next binade), the largest int below the
+   threshold -> MaxFloat64, the threshold itself and 2^1024 (shortcut) -> +Inf. *)
+Example int_to_float_rounding_examples :
+  canonical union_impl (Big (2 ^ 53 + 1)) = true /\
+  Int_Float union_impl (Big (2 ^ 53 + 1)) = S754_finite false 4503599627370496 1 /\
+  Int_Float union_impl (Big (2 ^ 53 + 3)) = S754_finite false 4503599627370498 1 /\
+  Int_Float fallback_impl (- (2 ^ 53 + 1)) = S754_finite true 4503599627370496 1 /\
+  Int_Float union_impl (Big (2 ^ 54 - 1)) = S754_finite false 4503599627370496 2 /\
+  Int_Float union_impl (Big (2 ^ 1024 - 2 ^ 970 - 1)) = S754_finite false 9007199254740991 971 /\
+  Int_Float union_impl (Big (2 ^ 1024 - 2 ^ 970)) = S754_infinity false /\
+  Int_Float union_impl (Big (2 ^ 1024)) = S754_infinity false /\
+  Int_Float fallback_impl (- 2 ^ 1024) = S754_infinity true /\
+  finiteFloat union_impl (Big (2 ^ 1024 - 2 ^ 970)) = Err /\
+  finiteFloat union_impl (Big (2 ^ 53 + 3)) = Ok (S754_finite false 4503599627370498 1) /\
+  (overflow_threshold <=? Z.abs (2 ^ 53 + 3)) = false /\ (overflow_threshold <=? Z.abs (- 2 ^ 1024)) = true /\
+  scaled_val (S754_finite false 4503599627370498 1) = Some ((2 ^ 53 + 4) * scale).
+Proof. vm_compute. repeat split. Qed.
 
 (* ------------------------------------------------------------------ text *)
 
